@@ -162,7 +162,7 @@ Record WBuf (hs : bool) (st : wstate) (w : world) (ss : list shape) : Prop := mk
   wb_hs : ws_has_shx st = hs;
   wb_shp : exists H, d_buf (w_shp w) = H ++ records_from 1 ss /\ slot H (records_from 1 ss);
   wb_shx : if hs then exists H, d_buf (w_shx w) = H ++ index_from 50 ss /\ slot H (index_from 50 ss)
-           else d_buf (w_shx w) = []
+           else bp_of (w_shx w) = ([], 0%nat)
 }.
 
 Lemma WInv_WBuf hs st w ss : WInv hs st w ss -> WBuf hs st w ss.
@@ -172,8 +172,19 @@ Proof.
   - exists H. split; [exact Hb|apply hdr_slot_slot, Hsl].
   - destruct hs.
     + destruct Hx as (Hxh & [Hbx _] & Hsx & _). exists Hxh. split; [exact Hbx|apply hdr_slot_slot, Hsx].
-    + unfold bp_of in Hx. injection Hx as Hx _. exact Hx.
+    + exact Hx.
 Qed.
+
+(** Arming any fault plan on either destination keeps [WBuf]. *)
+Definition arm_dev (d : wdev) (f : option (nat * bool)) : wdev :=
+  mkwdev (d_buf d) (d_pos d) (d_ops d) f (d_flushed d) (d_log d).
+Definition arm (w : world) (f1 f2 : option (nat * bool)) : world := mkworld (arm_dev (w_shp w) f1) (arm_dev (w_shx w) f2).
+
+Lemma arm_WBuf hs st w ss f1 f2 : WBuf hs st w ss -> WBuf hs st (arm w f1 f2) ss.
+Proof. intros [Hp Hh Hr Hhs Hs Hx]. constructor; auto. Qed.
+
+Lemma set_interrupted_WBuf hs st w ss b : WBuf hs st w ss -> WBuf hs (set_interrupted st b) w ss.
+Proof. intros [Hp Hh Hr Hhs Hs Hx]. constructor; assumption. Qed.
 
 Lemma finalize_ops_shp st hs : ws_has_shx st = hs -> ops_of Shp (finalize_ops st) = fin_ops (final_header st).
 Proof. intros Hhs. unfold finalize_ops, fin_ops. rewrite Hhs. destruct hs; ops_norm; reflexivity. Qed.
@@ -201,7 +212,7 @@ Theorem finalize_any hs st w ss : WBuf hs st w ss -> ws_dirty st = true ->
   exists r st1 w1, w_finalize st w = (r, st1, w1) /\
     ((r = Ok tt /\ ws_dirty st1 = false /\ d_buf (w_shp w1) = final_shp ss /\
       d_buf (w_shx w1) = (if hs then final_shx ss else [])) \/
-     (r = Err EIoInjected /\ st1 = st /\ WBuf hs st w1 ss)).
+     (r = Err EIoInjected /\ st1 = set_interrupted st true /\ WBuf hs st1 w1 ss)).
 Proof.
   intros [Hpos Hh Hr Hhs (Hs & Hbs & Hss) Hx] Hd. unfold w_finalize. rewrite Hd. cbn [negb].
   destruct (run_ops_prefix (finalize_ops st) w Hpos (finalize_ops_wf st)) as (pre & post & r & w1 & Eo & R & Hpos1 & B1 & B2 & Hcase).
@@ -221,10 +232,10 @@ Proof.
       pose proof (bp_finalize_any Hxh (index_from 50 ss) (bp_of (w_shx w)) (final_shx_hdr ss) Hbx Hsx) as [Hf _].
       rewrite <- B2 in Hf. exact Hf.
     + rewrite (finalize_ops_shx_none st Hhs) in B2. unfold bp_ops in B2. cbn [fold_left] in B2.
-      unfold bp_of in B2. injection B2 as B2 _. rewrite B2. exact Hx.
+      rewrite Hx in B2. unfold bp_of in B2. injection B2 as B2 _. exact B2.
   - (* a prefix was applied *)
-    exists (Err EIoInjected), st, w1. split; [reflexivity|]. right. split; [reflexivity|]. split; [reflexivity|].
-    constructor; auto.
+    exists (Err EIoInjected), (set_interrupted st true), w1. split; [reflexivity|]. right. split; [reflexivity|]. split; [reflexivity|].
+    apply set_interrupted_WBuf. constructor; auto.
     + destruct (partial_finalize_keeps_slot (final_hdr ss) _ Hs (records_from 1 ss) (bp_of (w_shp w)) P1 Hbs Hss) as (H' & E' & S').
       exists H'. rewrite <- B1 in E'. split; [exact E'|exact S'].
     + destruct hs.
@@ -232,7 +243,7 @@ Proof.
         destruct (partial_finalize_keeps_slot (final_shx_hdr ss) _ Hxh (index_from 50 ss) (bp_of (w_shx w)) P2 Hbx Hsx) as (H' & E' & S').
         exists H'. rewrite <- B2 in E'. split; [exact E'|exact S'].
       * rewrite (finalize_ops_shx_none st Hhs) in P2. apply prefix_of_nil in P2. rewrite P2 in B2.
-        unfold bp_ops in B2. cbn [fold_left] in B2. unfold bp_of in B2. injection B2 as B2 _. rewrite B2. exact Hx.
+        unfold bp_ops in B2. cbn [fold_left] in B2. rewrite B2. exact Hx.
 Qed.
 
 Lemma heal_WBuf hs st w ss : WBuf hs st w ss -> WBuf hs st (heal w) ss.
@@ -257,10 +268,10 @@ Proof.
   intros Hb Hd st1 w1 E.
   destruct (finalize_any hs st w ss Hb Hd) as (r & st1' & w1' & E' & Hcase). rewrite E in E'. injection E' as <- <- <-.
   destruct Hcase as [[Hr _]|(_ & -> & Hb1)]; [discriminate|].
-  destruct (finalize_any hs st (heal w1) ss (heal_WBuf _ _ _ _ Hb1) Hd) as (r2 & st2 & w2 & E2 & Hcase2).
+  destruct (finalize_any hs _ (heal w1) ss (heal_WBuf _ _ _ _ Hb1) Hd) as (r2 & st2 & w2 & E2 & Hcase2).
   destruct Hcase2 as [(-> & Hd2 & F1 & F2)|(-> & _)].
   - exists st2, w2. auto.
-  - exfalso. exact (heal_no_fault w1 st (wb_pos _ _ _ _ Hb1) _ _ _ E2 eq_refl).
+  - exfalso. exact (heal_no_fault w1 _ (wb_pos _ _ _ _ Hb1) _ _ _ E2 eq_refl).
 Qed.
 
 (** Short writes: std's `write_all` loop over a destination that accepts at
